@@ -107,6 +107,7 @@ def run(tier, seed, replay=None):
     if not chk.builds(model=True, harness=True):
         return chk.finish()
     chk.proofs()
+    chk.proofs("Hints")     # a SkipVehicle hint of the modelled estimates is never wrong: the hypothesis of C10_single_stop_* is discharged
     rng = random.Random(seed * 1009 + 10)
     n = 120 if tier == "quick" else 3000
     cases = []
@@ -131,6 +132,19 @@ def run(tier, seed, replay=None):
         for u in m["units"]:
             ops += ["op q_best %d" % u["stops"][0]] * 5
         cases.append({"id": "t%d" % i, "model": m, "ops": ops})
+    # hints: checked plan operations (every built-in estimate asked on its own: violated? SkipVehicle?) and best-move queries on
+    # models whose hinting estimates are tight - attributes, maximum stops, capacity without negative quantities, distance limit
+    nh = 300 if tier == "quick" else 6000
+    nest = 0
+    off = {"capacity": False, "maxwait_stop": False, "maxwait_veh": False, "endtime": False, "maxdur": False, "maxstops": False,
+           "maxdist": False, "attrs": False, "windows": False}
+    focus = [{"attrs": True, "maxstops": True}, {"capacity": True}, {"maxdist": True}, {"capacity": True, "maxstops": True, "maxdist": True, "attrs": True}]
+    for i in range(nh):
+        fz = focus[i % len(focus)]
+        hc = E.make_cases(seed * 1009 + 1000 + i, 1, size="small", nops=14, mode="checked_only", feats=dict(off, precedence=(i % 3 == 0), **fz))[0]
+        hc["id"] = "h%d" % i
+        hc["ops"] = list(hc["ops"]) + ["op q_best %d" % u["stops"][0] for u in hc["model"]["units"]]
+        cases.append(hc)
     corpus = [{"id": c["id"], "model": c["model"], "ops": c["ops"]} for c in FW.load_corpus(PID)]
     for c in corpus:  # JSON turns tuples into lists
         c["model"]["arcs"] = [tuple(a) for a in c["model"]["arcs"]]
@@ -142,9 +156,17 @@ def run(tier, seed, replay=None):
     res, st = E.run_cases(cases, "c10_" + tier, timeout=3000)
     chk.ob("harness and model runner exit normally", st[0] == 0 and st[2] == 0, (st[1] + st[3])[-300:])
     bad = [r for r in res if r["diff"]]
-    chk.ob("position generator sets (per order) and history snapshots identical to the model on %d cases" % n, not bad,
+    chk.ob("position generator sets (per order), per-estimate answers with SkipVehicle hints and history snapshots identical to the model on %d cases" % len(cases), not bad,
            str(bad[0]["diff"])[:500] if bad else "")
     nseq, nbest = semantic(chk, res)
+    est = {}
+    for r in res:
+        for l in r["impl"]:
+            f = l.split()
+            if len(f) >= 3 and f[1] == "est":
+                for it in f[2:]:
+                    est[it] = est.get(it, 0) + 1
+    chk.ev.cov["estimates_violated_with_hint"] = est
     chk.ob("order generator = allowed orders (8 seeds each, %d queries); BestMove = brute-force minimum (%d queries)" % (nseq, nbest),
            not chk.violations)
     chk.ev.cov.update({
@@ -156,7 +178,7 @@ def run(tier, seed, replay=None):
         "samples": [cases[0]["ops"][-4:]],
         "search_description": "the comparison itself is the failing input",
     })
-    chk.ev.assume("estimates (allowed, cost) are taken from the implementation's own NewMoveStops: C10 is about the enumeration, not about the estimates (C09)")
+    chk.ev.assume("estimates (allowed, cost) are taken from the implementation's own NewMoveStops: C10 is about the enumeration, not about the estimates (C09); the SkipVehicle hints of the modelled estimates are compared with the model (est lines) and proved sound in Props/Hints.v")
     return chk.finish()
 
 
